@@ -54,6 +54,10 @@ func genC17(seed uint64, tier string) *Plan {
 		p.Knobs["v0_inline"] = float64(r.intn(2))
 		p.Knobs["p_park"] = []float64{0.3, 0.7}[r.intn(2)]
 		p.Knobs["workers"] = 2
+		if r.chance(0.4) {
+			// a validation queue that is easily full: requested messages can be dropped on arrival
+			p.Knobs["workers"], p.Knobs["val_queue"], p.Knobs["v0_inline"], p.Knobs["p_park"] = 1, 1, 1, 0.9
+		}
 	}
 	add := func(op string, a ...int64) { p.Items = append(p.Items, Item{Op: op, A: a}) }
 	add("node-sub", 0)
@@ -205,6 +209,17 @@ func runC17(s *sim) {
 	sendCount := map[string]int{}
 	w.onFakePub = func(fp *fakePeer, m *pb.Message) { lastPub, lastPubBy = m, fp; sendCount[midOf(m)]++ }
 	w.n.onRaw = func(r *rawRec) {
+		if r.kind == "send" && r.rpc != nil {
+			var ids []string
+			for _, iw := range r.rpc.GetControl().GetIwant() {
+				ids = append(ids, iw.GetMessageIDs()...)
+			}
+			if len(ids) > 0 {
+				s.mu.Lock()
+				promises = append(promises, &promise{to: r.p, ids: ids, expire: r.t + followup})
+				s.mu.Unlock()
+			}
+		}
 		if r.kind == "validate" || r.kind == "deliver" {
 			s.mu.Lock()
 			if _, ok := arrived[r.mid]; !ok {
@@ -463,7 +478,6 @@ func runC17(s *sim) {
 		}
 		asked[fp.id] += len(req)
 		if len(req) > 0 {
-			promises = append(promises, &promise{to: fp.id, ids: req, expire: s.now() + followup})
 			s.probe("iwant_sent_by_node")
 		}
 		return
@@ -649,28 +663,63 @@ func runC17(s *sim) {
 				}
 			}
 		}
-		// promise penalties: only-if direction
+		// promise penalties: only-if direction. Promises are the IWANTs the router decided to send
+		// (SEND_RPC trace, see onRaw below); a promise is kept iff every requested message was handed
+		// to the node in time by anybody.
 		now := hpost.t
+		qfullAt := map[string]time.Duration{}
+		w.n.mu.Lock()
+		for _, r := range w.n.raw {
+			if r.kind == "reject" && r.reason == RejectValidationQueueFull {
+				if _, ok := qfullAt[r.mid]; !ok {
+					qfullAt[r.mid] = r.t
+				}
+			}
+		}
+		w.n.mu.Unlock()
 		for _, i := range w.forder {
 			fp := w.fakes[i]
 			d := hpost.penalty[fp.id] - hpre.penalty[fp.id]
-			u := 0
-			for _, pr := range promises {
+			u, uQueue, uWaiting := 0, 0, 0
+			s.mu.Lock()
+			prs := append([]*promise(nil), promises...)
+			s.mu.Unlock()
+			for _, pr := range prs {
 				if pr.to != fp.id || pr.counted || pr.expire >= now {
 					continue
 				}
 				pr.counted = true
-				broken := false
+				broken, queue, waiting := false, false, false
 				for _, id := range pr.ids {
-					if a, ok := arrived[id]; !ok || a > pr.expire {
+					if a, ok := w.sentAt[id]; !ok || a > pr.expire {
 						broken = true
+						continue
+					}
+					// on the wire in time. Did the node's own pipeline hold it up?
+					if a, ok := arrived[id]; !ok || a > pr.expire {
+						if q, ok := qfullAt[id]; ok && q <= pr.expire {
+							queue = true // dropped because the validation queue was full: traced, so the router knows
+						} else {
+							waiting = true // still waiting for a validation worker when the follow-up time ended
+						}
 					}
 				}
-				if broken {
+				switch {
+				case broken:
 					u++
+				case waiting:
+					uWaiting++
+				case queue:
+					uQueue++
 				}
 			}
-			if d > float64(u)+1e-9 {
+			switch {
+			case d <= float64(u)+1e-9:
+			case d <= float64(u+uWaiting)+1e-9:
+				s.violate("C17", "promise", "C17/promise/penalised-although-arrived/waiting-for-validation", "heartbeat %d raised the behaviour penalty of %s by %v: %d promises are broken, %d more were kept on the wire in time but the message had not begun validation when the follow-up time ended", h, fp.name, d, u, uWaiting)
+			case d <= float64(u+uWaiting+uQueue)+1e-9:
+				s.violate("C17", "promise", "C17/promise/penalised-although-arrived/dropped-queue-full", "heartbeat %d raised the behaviour penalty of %s by %v: %d promises are broken, %d more were kept but the node dropped the message because its validation queue was full", h, fp.name, d, u, uQueue)
+			default:
 				s.violate("C17", "promise", "C17/promise/unjustified-penalty", "heartbeat %d raised the behaviour penalty of %s by %v but only %d of its IWANT promises are broken", h, fp.name, d, u)
 			}
 			if u > 0 && d > 0 {
